@@ -67,6 +67,15 @@ def cases(tier, rng):
             a_, b_ = rng.randint(-3, 3), rng.randint(-5, 5)
             ys = [a_ * x + b_ for x in xs]
         yield {"k": 1006, "args": [xs, ys], "group": "lstsq"}
+    # the same kernel on the arrays the slope methods hand it: float32 distances far from zero (a river hundreds of
+    # kilometres long sampled every ~100 m); every value is an integer below 2^24, hence exact in float32
+    for t in range(30 if tier == "quick" else 300):
+        m_ = rng.randint(3, 12)
+        x0 = rng.randint(50000, 400000)
+        xs = [x0 + 100 * j + rng.randint(0, 30) for j in range(m_)]
+        y0, dy = rng.randint(0, 500), rng.randint(1, 9)
+        ys = [y0 + dy * j + rng.randint(0, 1) for j in range(m_)]
+        yield {"k": 1006, "args": [xs, ys], "f32": True, "group": "lstsq-f32"}
     for t in range(80 if tier == "quick" else 800):
         nr, nc = rng.randint(2, 8), rng.randint(2, 8)
         if rng.random() < 0.25:      # rasters one or two pixels wide / high (round-6 seed: index steps of +-1 are not always east / west)
@@ -97,7 +106,7 @@ def _oq(vals, nodata):
     out = []
     for v in vals:
         v = float(v)
-        if v == nodata or v != v:      # NaN (median of an all-nodata segment) = no value
+        if v == nodata or v != v or v in (float('inf'), float('-inf')):      # NaN (median of an all-nodata segment) / no finite value
             out += [0, 0, 1]
         else:
             f = Fraction(v)
@@ -113,7 +122,10 @@ def impl(case):
     if k == 1006:
         from pyflwdir import arithmetics
         xs, ys = np.array(a[0], dtype=np.float64), np.array(a[1], dtype=np.float64)
-        st, v = call_impl(arithmetics.lstsq, xs, ys)
+        if case.get("f32"):
+            st, v = call_impl(arithmetics.lstsq, xs.astype(np.float32), ys.astype(np.float32))
+        else:
+            st, v = call_impl(arithmetics.lstsq, xs, ys)
         if st != "ok":
             return [[-2], [st]]
         sl, ic = float(v[0]), float(v[1])
@@ -253,6 +265,28 @@ def _api(call, ds):
         st, v = call_impl(getattr(flw, name), outs, direction=rng.choice(["up", "down"]), **kw)
         if st != "ok" or np.asarray(v).shape != outs.shape:
             bad.append(f"{name} -> {st} {v if st != 'ok' else np.asarray(v).shape}")
+    # weights given as a map like every other argument, and equal to the default weights
+    d_ = rng.choice(["up", "down"])
+    st0, v0 = call_impl(flw.subgrid_rivavg, outs, hand, direction=d_)
+    st1, v1 = call_impl(flw.subgrid_rivavg, outs, hand, weights=np.ones((nr, nc), dtype=np.float32), direction=d_)
+    if st0 != "ok" or st1 != "ok" or not np.array_equal(np.asarray(v0), np.asarray(v1)):
+        bad.append(f"subgrid_rivavg with a map of unit weights: {st1} {v1 if st1 != 'ok' else ''} differs from the default weights")
+    # the river mask of the slope methods: with no river pixel at all every channel section is the outlet pixel alone
+    # (slope 0), with every pixel a river pixel the mask changes nothing
+    zz = np.array([rng.randint(0, 50) for _ in range(n)], dtype=np.float32).reshape(nr, nc)
+    for d_ in ("both", "up", "down"):
+        kw = {"length": float(rng.choice([1, 2, 5]))} if d_ == "both" else {}
+        st0, v0 = call_impl(flw.subgrid_rivslp, outs, zz, direction=d_, **kw)
+        st1, v1 = call_impl(flw.subgrid_rivslp, outs, zz, direction=d_, mask=np.ones((nr, nc), dtype=bool), **kw)
+        st2, v2 = call_impl(flw.subgrid_rivslp, outs, zz, direction=d_, mask=np.zeros((nr, nc), dtype=bool), **kw)
+        if st0 != "ok" or st1 != "ok" or st2 != "ok":
+            bad.append(f"subgrid_rivslp({d_}) with masks -> {st0} {st1} {st2}")
+            continue
+        if not np.array_equal(np.asarray(v0), np.asarray(v1)):
+            bad.append(f"subgrid_rivslp({d_}, mask all true) differs from the unmasked slopes")
+        got = [float(x) for x in np.asarray(v2).ravel()]
+        if any(x >= 0 and got[kk] != 0.0 for kk, x in enumerate(o)):
+            bad.append(f"subgrid_rivslp({d_}, mask all false) reports a slope {got} although no pixel is a river pixel")
     return [[0]] if not bad else [[1], bad[:3]]
 
 
@@ -281,6 +315,19 @@ def oracle(case, out):
     if k == 1000:
         return None if out == [[0]] else ("ucat:api", f"{out[1]}")
     if k == 1006:
+        # the least-squares line through integer points, in exact rationals
+        xs, ys = [Fraction(x) for x in a[0]], [Fraction(y) for y in a[1]]
+        n_ = len(xs)
+        den = n_ * sum(x * x for x in xs) - sum(xs) ** 2
+        sl = (n_ * sum(x * y for x, y in zip(xs, ys)) - sum(xs) * sum(ys)) / den
+        ic = (sum(ys) - sl * sum(xs)) / n_
+        tol = 1e-6 if case.get("f32") else 1e-9
+        for j, e in enumerate([sl, ic, abs(sl)]):
+            if out[0][3 * j] != 1:
+                return ("lstsq:not-finite", f"value {j} of (slope, intercept, |slope|) is not finite; expected {float(e)}")
+            g = out[0][3 * j + 1] / out[0][3 * j + 2]
+            if not (abs(g - float(e)) <= tol * (1.0 + abs(float(e)))):
+                return ("lstsq:value", f"value {j} of (slope, intercept, |slope|): {g} expected {float(e)}")
         return None
     ds, outs = a[0], a[1]
     n = len(ds)
@@ -346,7 +393,9 @@ def compare(case, i, m):
             if iv[j] != 1 or mv[j] != 1:
                 return False
             a_, b_ = float(Fraction(iv[j + 1], iv[j + 2])), Fraction(mv[j + 1], mv[j + 2])
-            if not (abs(a_ - float(b_)) <= 1e-9 * (1.0 + abs(float(b_)))):
+            # float32 input far from zero: the binary64 normal equations still cancel ~7 digits (n*Sxx - Sx^2)
+            tol = 1e-6 if case.get("f32") else 1e-9
+            if not (abs(a_ - float(b_)) <= tol * (1.0 + abs(float(b_)))):
                 return False
         return True
     if k in (1004, 1005) and i and i[0] != [-2] and m and len(m[0]) == len(i[0]):
